@@ -56,8 +56,11 @@ void ob_c02d_same_rank(const svf<C>& shape, const svf<C>& axes, const svf<2*C>& 
 {
     ASSUME(shape.size() == R); ASSUME(axes.size() == R); ASSUME(widths.size() == 2*R);
     for_<R>([&](auto I){ ASSUME(axes[I.value] == (size_t)(R - 1 - I.value)); });
-    { auto r = ix::shape_repeat(shape, (size_t)2, (int)0);           OBLIGE(CAP, len_of(r) == R, 8, R, C); }
-    { auto r = ix::shape_transpose(shape, axes);                     OBLIGE(CAP, len_of(r) == R, 9, R, C); }
+    { auto r = ix::shape_repeat(shape, (size_t)2, (int)0);           OBLIGE(CAP, len_of(r) == R, 8, R, C);
+      // the VALUES of the run-time-length branch agree with the definition too (one oracle for every container kind: C09)
+      if (len_of(r) == R) for_<R>([&](auto I){ OBLIGE("C09.bounded_shape.shape_repeat.extents|C04.bounded_shape.shape_repeat.extents", (size_t)nm::at(nm::unwrap(r), I.value) == (I.value == 0 ? 2 : 1) * (size_t)nm::at(shape, I.value), R, C, I.value); }); }
+    { auto r = ix::shape_transpose(shape, axes);                     OBLIGE(CAP, len_of(r) == R, 9, R, C);
+      if (len_of(r) == R) for_<R>([&](auto I){ OBLIGE("C09.bounded_shape.shape_transpose.extents|C03.bounded_shape.shape_transpose.extents", (size_t)nm::at(nm::unwrap(r), I.value) == (size_t)nm::at(shape, R - 1 - I.value), R, C, I.value); }); }
     { auto r = ix::shape_pad(shape, widths);                         OBLIGE(CAP, len_of(r) == R, 10, R, C); }
     { auto r = ix::shape_take(shape, std::array<size_t,2>{0,0}, (int)0); OBLIGE(CAP, len_of(r) == R, 11, R, C); }
 }
@@ -66,8 +69,10 @@ template <size_t R, size_t C>
 void ob_c02d_remove_dims(const svf<C>& shape)
 {
     ASSUME(shape.size() == R);
-    { auto r = ix::remove_dims(shape, (int)0, nm::False); OBLIGE(CAP, len_of(r) == R - 1, 12, R, C); }
-    { auto r = ix::remove_dims(shape, (int)-1, nm::True); OBLIGE(CAP, len_of(r) == R, 13, R, C); }
+    { auto r = ix::remove_dims(shape, (int)0, nm::False); OBLIGE(CAP, len_of(r) == R - 1, 12, R, C);
+      if (len_of(r) == R - 1) for_<R-1>([&](auto I){ OBLIGE("C09.bounded_shape.remove_dims.extents|C08.bounded_shape.remove_dims.extents", (size_t)nm::at(nm::unwrap(r), I.value) == (size_t)nm::at(shape, I.value + 1), R, C, I.value); }); }
+    { auto r = ix::remove_dims(shape, (int)-1, nm::True); OBLIGE(CAP, len_of(r) == R, 13, R, C);
+      if (len_of(r) == R) for_<R>([&](auto I){ OBLIGE("C09.bounded_shape.remove_dims.keepdims_extents|C08.bounded_shape.remove_dims.keepdims_extents", (size_t)nm::at(nm::unwrap(r), I.value) == (I.value == R - 1 ? 1 : (size_t)nm::at(shape, I.value)), R, C, I.value); }); }
 }
 void ob_c02d_negctl(const svf<3>& a, const svf<3>& b)
 { ASSUME(a.size() == 2); ASSUME(b.size() == 1); auto r = ix::shape_outer(a, b); NEGCTL("C02.NEG.outer_keeps_the_left_rank|C09.NEG.outer_keeps_the_left_rank", len_of(r) == 2, 0); }
